@@ -62,3 +62,35 @@ Section Hit.
     | BNode b l r => box_eqb b (node_box (bbox_of l) (bbox_of r)) && bvh_wfb l && bvh_wfb r
     end.
 End Hit.
+
+(* NewBVHTree over a non-empty object list.  The split axis is random at every node and sort.Sort is not
+   stable, so the rearrangement of the objects at a node is a parameter: `srt` stands for "sort the
+   slice by the comparator drawn at this node" (for two objects: put the smaller first) and is only
+   assumed to return a permutation.  One object: both children are that object.  (The code does not
+   terminate on an empty slice; NewBVHFromMesh of an empty mesh is outside the model: None.) *)
+Section Build.
+  Variable lbox : nat -> box.
+  Variable srt : list nat -> list nat.
+
+  Fixpoint bvh_build (fuel : nat) (objs : list nat) : option bvh :=
+    match fuel with
+    | O => None
+    | S f =>
+        match objs with
+        | [] => None
+        | [i] => Some (BNode (node_box (lbox i) (lbox i)) (BLeaf i) (BLeaf i))
+        | [_; _] =>
+            match srt objs with
+            | [a; b] => Some (BNode (node_box (lbox a) (lbox b)) (BLeaf a) (BLeaf b))
+            | _ => None
+            end
+        | _ =>
+            let s := srt objs in
+            let mid := Nat.div (length s) 2 in
+            match bvh_build f (firstn mid s), bvh_build f (skipn mid s) with
+            | Some l, Some r => Some (BNode (node_box (bbox_of lbox l) (bbox_of lbox r)) l r)
+            | _, _ => None
+            end
+        end
+    end.
+End Build.
